@@ -691,6 +691,11 @@ func findMakeClosure(parent *ssa.Function, f *ssa.Function) *ssa.MakeClosure {
 }
 
 func (r *Run) scanSpecAssigns(sp *FuncSpec, ws *writeSet) {
+	if sp.Implements != "" {
+		if isp := r.specs.Funcs["iface:"+sp.Implements]; isp != nil {
+			r.scanSpecAssigns(isp, ws)
+		}
+	}
 	if sp.Havoc {
 		ws.all = true
 		return
@@ -1013,6 +1018,23 @@ func (r *Run) bitop(op string, a, b Term, bits uint, unsigned bool) Term {
 		case ">>":
 			return mkBig(x.Rsh(la, uint(lb.Uint64())))
 		}
+	}
+	ea, eb := r.ctx.Expand(a), r.ctx.Expand(b)
+	if op == "&" && !oka && !okb && (eb.S == Sub(a, mkInt(1)).S || ea.S == Sub(b, mkInt(1)).S) {
+		// x & (x-1): zero exactly for 0 and the powers of two (exact characterisation of the zero test;
+		// the value itself is only bounded)
+		x := a
+		if ea.S == Sub(b, mkInt(1)).S {
+			x = b
+		}
+		res := r.ctx.Fresh("pow2test", SInt)
+		var alts []Term
+		alts = append(alts, Eq(x, mkInt(0)))
+		for k := uint(0); k < bits-1; k++ {
+			alts = append(alts, Eq(x, mkBig(pow2(k))))
+		}
+		r.ctx.Assert(Implies(Ge(x, mkInt(0)), And(Eq(Eq(res, mkInt(0)), Or(alts...)), Le(mkInt(0), res), Le(res, x))))
+		return res
 	}
 	switch op {
 	case "&":
